@@ -486,12 +486,20 @@ fn update_weights(
     let (_, mut lp_weight) =
         get_latest_address_weight(deps.storage, &env.contract.address, &lp_asset.denom)?;
 
+    // the user's latest weight for this LP
+    let (_, mut address_lp_weight) =
+        get_latest_address_weight(deps.storage, receiver, &lp_asset.denom)?;
+
     if fill {
         // filling position
         lp_weight = lp_weight.checked_add(weight)?;
+        address_lp_weight = address_lp_weight.checked_add(weight)?;
     } else {
-        // closing position
-        lp_weight = lp_weight.saturating_sub(weight);
+        // closing position. Never remove more weight from the total than what is removed from the
+        // user, otherwise the total drifts below the sum of the users' weights.
+        let removed_weight = weight.min(address_lp_weight);
+        lp_weight = lp_weight.saturating_sub(removed_weight);
+        address_lp_weight = address_lp_weight.saturating_sub(removed_weight);
     }
 
     // update the LP weight for the contract
@@ -504,18 +512,6 @@ fn update_weights(
         ),
         &lp_weight,
     )?;
-
-    // update the user's weight for this LP
-    let (_, mut address_lp_weight) =
-        get_latest_address_weight(deps.storage, receiver, &lp_asset.denom)?;
-
-    if fill {
-        // filling position
-        address_lp_weight = address_lp_weight.checked_add(weight)?;
-    } else {
-        // closing position
-        address_lp_weight = address_lp_weight.saturating_sub(weight);
-    }
 
     LP_WEIGHT_HISTORY.save(
         deps.storage,
